@@ -18,6 +18,12 @@ def _guard(item):
     """a worker must never die: a BaseException that escapes (e.g. a Rust panic surfacing as
     pyo3 PanicException) would kill the pool process and hang imap forever"""
     try:
+        if isinstance(item, dict) and item.get("fix_timeout"):
+            # the history already hit the watchdog while it was being prepared (_fix_worker): do not wait for it a second
+            # time in the main pass; it is run for real only in the retry pass (3x budget, alone)
+            if CASE_TIMEOUT <= BASE_CASE_TIMEOUT:
+                return {"case": item, "error": None, "timeout": True, "steps": []}
+            item = {k: v for k, v in item.items() if k != "fix_timeout"}
         return _GUARDED(item)
     except KeyboardInterrupt:
         raise
@@ -138,6 +144,7 @@ def _alarm(signum, frame):
     raise CaseTimeout()
 
 CASE_TIMEOUT = int(os.environ.get("VERIF_CASE_TIMEOUT", "30"))
+BASE_CASE_TIMEOUT = CASE_TIMEOUT
 
 def _case_worker(case):
     """runs the history on code and model, plus a fresh full-BFS reference on the model"""
@@ -393,7 +400,7 @@ def _fix_worker(case):
         case = dict(case); case["history"] = out
         return case
     except CaseTimeout:
-        return case
+        return dict(case, fix_timeout=True)
     except Exception:
         return case
     finally:
